@@ -147,6 +147,11 @@ def json_faults(sess, suite, t, text):
         o = json.loads(text); o["proof_of_knowledge"] = pk + "00"; muts.append(("a proof of knowledge lengthened by one byte", o))
     o = json.loads(text); o["extra_field"] = 1; muts.append(("unknown field", o))
     o = json.loads(text); del o["header"]; muts.append(("missing header", o))
+    # every single member removed (only the public key package's min_signers is optional: the pre-3.0 form lacks it)
+    for member in list(obj.keys()):
+        if member == "header" or (t == "pubkeypackage" and member == "min_signers"):
+            continue
+        o = json.loads(text); del o[member]; muts.append(("the member '%s' missing" % member, o))
     for name, o in muts:
         req = "json_de %s t=%s j=%s" % (suite, t, json.dumps(o, separators=(",", ":")).encode().hex())
         r = sess.call(req, NONE, "json_de-fault", model=False)
